@@ -11,57 +11,59 @@ import (
 
 // exhaustiveAlphabet is the op alphabet of the bounded-exhaustive check: universe {A, B} x
 // {s0, s1} x {0, v1, v2}.
-func exhaustiveAlphabet(maxLen int) []op {
-	var al []op
+func c12aExhaustiveAlphabet(maxLen int) []c12aOp {
+	var al []c12aOp
 	for a := 0; a < 2; a++ {
-		al = append(al, op{k: opCreate, a: a, s: 0, v: 1}, op{k: opCreate, a: a, s: 1, v: 0}, op{k: opCreate, a: a, s: 1, v: 1})
+		al = append(al, c12aOp{k: c12aOpCreate, a: a, s: 0, v: 1}, c12aOp{k: c12aOpCreate, a: a, s: 1, v: 0}, c12aOp{k: c12aOpCreate, a: a, s: 1, v: 1})
 	}
 	for a := 0; a < 2; a++ {
-		al = append(al, op{k: opAddBal, a: a, v: 1}, op{k: opAddBal, a: a, v: 0})
+		al = append(al, c12aOp{k: c12aOpAddBal, a: a, v: 1}, c12aOp{k: c12aOpAddBal, a: a, v: 0})
 	}
 	for a := 0; a < 2; a++ {
-		al = append(al, op{k: opSubBal, a: a, v: 1})
+		al = append(al, c12aOp{k: c12aOpSubBal, a: a, v: 1})
 	}
 	for a := 0; a < 2; a++ {
-		al = append(al, op{k: opSetBal, a: a, v: 5})
+		al = append(al, c12aOp{k: c12aOpSetBal, a: a, v: 5})
 	}
 	for a := 0; a < 2; a++ {
-		al = append(al, op{k: opSetNonce, a: a, v: 2})
+		al = append(al, c12aOp{k: c12aOpSetNonce, a: a, v: 2})
 	}
 	for a := 0; a < 2; a++ {
-		al = append(al, op{k: opSetCode, a: a, v: 2})
+		al = append(al, c12aOp{k: c12aOpSetCode, a: a, v: 2})
 	}
 	for a := 0; a < 2; a++ {
 		for s := 0; s < c12aNSlot; s++ {
 			for v := 0; v < 3; v++ {
-				al = append(al, op{k: opSetState, a: a, s: s, v: v})
+				al = append(al, c12aOp{k: c12aOpSetState, a: a, s: s, v: v})
 			}
 		}
 	}
 	for a := 0; a < 2; a++ {
 		for v := 0; v < 2; v++ {
-			al = append(al, op{k: opSetTransient, a: a, s: 0, v: v})
+			al = append(al, c12aOp{k: c12aOpSetTransient, a: a, s: 0, v: v})
 		}
 	}
 	for a := 0; a < 2; a++ {
-		al = append(al, op{k: opSuicide, a: a})
+		al = append(al, c12aOp{k: c12aOpSuicide, a: a})
 	}
-	al = append(al, op{k: opAddLog, a: 0, v: 0}, op{k: opAddRefund, v: 1}, op{k: opSubRefund, v: 1})
+	al = append(al, c12aOp{k: c12aOpAddLog, a: 0, v: 0}, c12aOp{k: c12aOpAddRefund, v: 1}, c12aOp{k: c12aOpSubRefund, v: 1})
 	for a := 0; a < 2; a++ {
-		al = append(al, op{k: opALAddr, a: a})
+		al = append(al, c12aOp{k: c12aOpALAddr, a: a})
 		for s := 0; s < c12aNSlot; s++ {
-			al = append(al, op{k: opALSlot, a: a, s: s})
+			al = append(al, c12aOp{k: c12aOpALSlot, a: a, s: s})
 		}
 	}
-	al = append(al, op{k: opPreimage, v: 0}, op{k: opSnapshot})
+	al = append(al, c12aOp{k: c12aOpPreimage, v: 0}, c12aOp{k: c12aOpSnapshot})
 	for j := 0; j <= maxLen-2; j++ {
-		al = append(al, op{k: opRevert, v: j})
+		al = append(al, c12aOp{k: c12aOpRevert, v: j})
 	}
-	al = append(al, op{k: opFinalise}, op{k: opPrepare}, op{k: opIRoot}, op{k: opCommitReopen})
+	al = append(al, c12aOp{k: c12aOpFinalise}, c12aOp{k: c12aOpPrepare}, c12aOp{k: c12aOpIRoot}, c12aOp{k: c12aOpCommitReopen})
 	return al
 }
 
-func hasPrecond(k opKind) bool { return k == opSubBal || k == opSubRefund || k == opCreate }
+func c12aHasPrecond(k c12aOpKind) bool {
+	return k == c12aOpSubBal || k == c12aOpSubRefund || k == c12aOpCreate
+}
 
 // TestC12A_Exhaustive enumerates, for each of the three pre-states, ALL op sequences of length
 // <= L over the alphabet that respect the caller contract and contain at least one
@@ -79,29 +81,29 @@ func TestC12A_Exhaustive(t *testing.T) {
 		lens = [3]int{v, v, v}
 	}
 	shard, nsh := stats.Shard(), stats.NShards()
-	exclude := stats.IsKnown(fpSuicideSize)
+	exclude := stats.IsKnown(c12aFpSuicideSize)
 	const part = "exhaustive"
 	var executed, invalid int64
-	memo := map[string]*commitD{}
+	memo := map[string]*c12aCommitD{}
 
 	var N int
 	for ii := range c12aInits {
 		ini := &c12aInits[ii]
 		L := lens[ii]
-		alpha := exhaustiveAlphabet(L)
+		alpha := c12aExhaustiveAlphabet(L)
 		N = len(alpha)
-		seq := make([]op, 0, L)
+		seq := make([]c12aOp, 0, L)
 		idx := make([]int, 0, L)
 
 		prefixValid := func() bool {
-			r, err := newRunner(env, ini, 2, false)
+			r, err := c12aNewRunner(env, ini, 2, false)
 			if err != nil {
 				t.Fatalf("HARNESS: %v", err)
 			}
 			for i, o := range seq {
 				if ok, _ := r.step(i, o, seq); !ok {
 					if i != len(seq)-1 {
-						t.Fatalf("HARNESS: precondition failed inside an already validated prefix: %v @%d", opsStrings(seq), i)
+						t.Fatalf("HARNESS: precondition failed inside an already validated prefix: %v @%d", c12aOpsStrings(seq), i)
 					}
 					return false
 				}
@@ -109,33 +111,33 @@ func TestC12A_Exhaustive(t *testing.T) {
 			return true
 		}
 		execOne := func() bool {
-			spans, shadow := analyse(seq)
+			spans, shadow := c12aAnalyse(seq)
 			// the revert oracle of every earlier revert was evaluated when that prefix was enumerated
-			observe := seq[len(seq)-1].k == opRevert
-			res := runCase(env, ini, 2, exclude, seq, spans, shadow, false, memo, observe)
+			observe := seq[len(seq)-1].k == c12aOpRevert
+			res := c12aRunCase(env, ini, 2, exclude, seq, spans, shadow, false, memo, observe)
 			if res.invalidAt >= 0 {
 				if res.invalidAt != len(seq)-1 {
-					t.Fatalf("HARNESS: precondition failed inside an already validated prefix: %v @%d", opsStrings(seq), res.invalidAt)
+					t.Fatalf("HARNESS: precondition failed inside an already validated prefix: %v @%d", c12aOpsStrings(seq), res.invalidAt)
 				}
 				invalid++
 				return false
 			}
 			if res.excluded {
-				stats.Excluded(fpSuicideSize)
+				stats.Excluded(c12aFpSuicideSize)
 				return false
 			}
 			executed++
-			sig, nt, labels := labelsFor(ini, seq, spans)
+			sig, nt, labels := c12aLabelsFor(ini, seq, spans)
 			if res.effective {
 				labels = append(labels, "revert_undid_observable_change")
 			}
 			labels = append(labels, fmt.Sprintf("len:%d", len(seq)))
 			stats.Case(part, sig, nt, labels...)
 			if nt && stats.WantSample(part) {
-				stats.Sample(part, map[string]any{"init": ini.name, "ops": opsStrings(seq)})
+				stats.Sample(part, map[string]any{"init": ini.name, "ops": c12aOpsStrings(seq)})
 			}
 			if res.viol != nil {
-				reportViolation(t, part, ini, seq, shadow, res.viol)
+				c12aReportViolation(t, part, ini, seq, shadow, res.viol)
 			}
 			return true
 		}
@@ -143,12 +145,12 @@ func TestC12A_Exhaustive(t *testing.T) {
 		var rec func(live int, rooted, hasRev bool)
 		rec = func(live int, rooted, hasRev bool) {
 			for i, o := range alpha {
-				if !structOK(o, live, rooted, L) {
+				if !c12aStructOK(o, live, rooted, L) {
 					continue
 				}
 				seq, idx = append(seq, o), append(idx, i)
 				n := len(seq)
-				nl, hr, rem := nextLive(o, live), hasRev || o.k == opRevert, L-n
+				nl, hr, rem := c12aNextLive(o, live), hasRev || o.k == c12aOpRevert, L-n
 				descend := true
 				// work is dealt out by a hash of the first three ops; shorter sequences are executed
 				// by the shard their own hash names, but every shard walks through them
@@ -164,11 +166,11 @@ func TestC12A_Exhaustive(t *testing.T) {
 					descend = false // no revert reachable any more
 				case hr && (mine || n > 3):
 					descend = execOne()
-				case hr || hasPrecond(o.k):
+				case hr || c12aHasPrecond(o.k):
 					descend = prefixValid()
 				}
 				if descend && rem > 0 {
-					rec(nl, nextRooted(o, rooted), hr)
+					rec(nl, c12aNextRooted(o, rooted), hr)
 				}
 				seq, idx = seq[:n-1], idx[:n-1]
 			}
